@@ -546,22 +546,22 @@ Lemma mp_app a b : marker_pending (a ++ b) = marker_pending a || marker_pending 
 Proof. apply existsb_app. Qed.
 
 (* thread t keeps a pending marker across one of its own steps, unless it puts it (or finds it queued) *)
-Lemma exec_marker_self s t i k inp s' : P3 s -> MsInv s -> ItInv s -> cont s t = i :: k -> exec s t i k inp = Some s' ->
+Lemma exec_marker_self s t i k inp s' : P3 s -> MsInv s -> ItInv s -> QlastInv s -> cont s t = i :: k -> exec s t i k inp = Some s' ->
   marker_pending (i :: k) = true ->
   marker_pending (cont s' t) = true \/ In QStop (queue s').
 Proof.
-  intros [HL [[HR HN] HD]] HMs [_ HIt] Ec H Hp.
+  intros [HL [[HR HN] HD]] HMs [_ HIt] HQ Ec H Hp.
   pose proof (HMs t) as Hms. rewrite Ec in Hms.
   pose proof (HR t) as Hro. rewrite Ec in Hro.
   destruct HL as [_ [HLB _]]. pose proof (HLB t) as HBt. rewrite Ec in HBt. destruct HBt as [_ [_ Hlast]].
   unfold marker_pending in Hp. simpl in Hp.
   destruct (is_marker i) eqn:Em.
   - destruct i; simpl in Em; try discriminate; simpl in H.
-    + (* IMarker *) destruct (last_is (queue s) QStop) eqn:El; inversion H; subst.
-      * right. rewrite queue_set_cont. unfold last_is in El. destruct (rev (queue s)) as [|y r] eqn:Er; try discriminate.
-        destruct y; simpl in El; try discriminate. apply in_rev. rewrite Er. left; auto.
+    + (* IMarker *) destruct (qlast_is s QStop) eqn:El; inversion H; subst.
+      * right. rewrite queue_set_cont. cbn. unfold qlast_is in El. destruct (qlast s) as [y|] eqn:Ey; try discriminate.
+        apply qitem_eqb_eq in El. subst y. apply last_is_in. apply HQ. exact Ey.
       * left. rewrite cont_set_cont_same. reflexivity.
-    + (* IMarkerPut *) inversion H; subst. right. rewrite queue_set_cont. simpl. apply in_or_app. right. left; auto.
+    + (* IMarkerPut *) inversion H; subst. right. rewrite queue_set_cont. cbn. apply in_or_app. right. left; auto.
   - simpl in Hp. left.
     simpl in Hms. apply andb_true_iff in Hms as [Hms _]. apply andb_true_iff in Hms as [Hms _].
     simpl in Hro. apply andb_true_iff in Hro as [Hro _].
@@ -583,10 +583,10 @@ Proof.
   destruct (is_marker i); auto. destruct (is_ret i); try discriminate. auto.
 Qed.
 
-Lemma MarkerInv_exec s t i k inp s' : P3 s -> MsInv s -> ItInv s -> MarkerInv s -> cont s t = i :: k ->
+Lemma MarkerInv_exec s t i k inp s' : P3 s -> MsInv s -> ItInv s -> QlastInv s -> MarkerInv s -> cont s t = i :: k ->
   exec s t i k inp = Some s' -> MarkerInv s'.
 Proof.
-  intros HP HMs HIt HM Ec H Hstop'.
+  intros HP HMs HIt HQ HM Ec H Hstop'.
   destruct HP as [HL [[HR HN] HD]].
   assert (HP3 : P3 s) by (split; [exact HL | split; [split; assumption | exact HD]]).
   destruct (exec_dstop _ _ _ _ _ _ H) as [Eds | Ei].
@@ -604,7 +604,7 @@ Proof.
       subst t. simpl in H. rewrite E in H. inversion H; subst. simpl. discriminate.
   - (* a marker put is pending *)
     destruct (tid_eq_dec t1 t) as [->|Hne].
-    + rewrite Ec in D2. destruct (exec_marker_self _ _ _ _ _ _ HP3 HMs HIt Ec H D2) as [E|E]; [right; left; eauto | left; auto].
+    + rewrite Ec in D2. destruct (exec_marker_self _ _ _ _ _ _ HP3 HMs HIt HQ Ec H D2) as [E|E]; [right; left; eauto | left; auto].
     + right; left. exists t1. destruct (exec_others _ _ _ _ _ _ H t1 Hne) as [E | [_ [Et [Hds _]]]].
       * rewrite E. auto.
       * exfalso. subst t1. destruct HL as [_ [_ [HDI _]]]. simpl in D2. rewrite (HDI Hds) in D2. discriminate.
@@ -638,7 +638,7 @@ Proof.
       simpl. discriminate.
 Qed.
 
-Definition P5 (s : state) : Prop := P3 s /\ MsInv s /\ ItInv s /\ MarkerInv s.
+Definition P5 (s : state) : Prop := P3 s /\ MsInv s /\ ItInv s /\ MarkerInv s /\ QlastInv s.
 
 Lemma em_step_queue s l s' : em_label l = true -> step s l = Some s' ->
   queue s' = queue s \/ exists x, queue s' = queue s ++ [x].
@@ -651,15 +651,16 @@ Qed.
 Lemma P5_reachable s : reachable s -> P5 s.
 Proof.
   apply reach_P.
-  - intros s0 t i k inp s' [H3 [HMs [HIt HM]]] Ec H.
-    split; [eapply P3_exec; eauto|]. split; [|split].
+  - intros s0 t i k inp s' [H3 [HMs [HIt [HM HQ]]]] Ec H.
+    split; [eapply P3_exec; eauto|]. split; [|split; [|split]].
     + intros t'. destruct (tid_eq_dec t' t) as [->|Hne].
       * eapply exec_mseg; eauto. rewrite <- Ec. apply HMs.
       * destruct (exec_others _ _ _ _ _ _ H t' Hne) as [E | [_ [_ [_ E]]]]; rewrite E; auto.
     + destruct H3 as [HL _]. eapply ItInv_exec; eauto.
     + eapply MarkerInv_exec; eauto.
-  - intros s0 n c [H3 [HMs [[HB HE] HM]]] Ec.
-    split; [apply P3_call; auto|]. split; [|split].
+    + eapply QlastInv_exec; eauto.
+  - intros s0 n c [H3 [HMs [[HB HE] [HM HQ]]]] Ec.
+    split; [apply P3_call; auto|]. split; [|split; [|split]].
     + intros t'. destruct (tid_eq_dec t' (TA n)) as [->|Hne].
       * rewrite cont_set_cont_same. destruct (fixed s0), c; reflexivity.
       * rewrite cont_set_cont_other by congruence. destruct t'; [apply (HMs TD) | apply (HMs (TA n0))].
@@ -676,18 +677,21 @@ Proof.
         -- rewrite Ec in D2. discriminate.
         -- rewrite cont_set_cont_other by congruence. destruct t1; exact D2.
       * right; right. exact D3.
-  - intros s0 l s' [H3 [HMs [[HB HE] HM]]] Hl H.
+    + exact HQ.
+  - intros s0 l s' [H3 [HMs [[HB HE] [HM HQ]]]] Hl H.
     destruct (em_step_frame _ _ _ Hl H) as [Ec [_ [_ [_ [_ [Eds [_ [Eem _]]]]]]]].
-    split; [eapply P3_em; eauto|]. split; [|split].
+    split; [eapply P3_em; eauto|]. split; [|split; [|split]].
     + intros t. rewrite Ec. apply HMs.
     + split; intros t; rewrite Ec, ?Eem; auto.
     + intros Hst. rewrite Eds in Hst. destruct (HM Hst) as [D1 | [[t1 D2] | D3]].
       * left. destruct (em_step_queue _ _ _ Hl H) as [E | [x E]]; rewrite E; auto. apply in_or_app. auto.
       * right; left. exists t1. rewrite Ec. exact D2.
       * right; right. specialize (Ec TD). simpl in Ec. rewrite Ec. exact D3.
-  - split; [apply P3_init|]. split; [intros t; destruct t; reflexivity|]. split.
+    + eapply QlastInv_em; eauto.
+  - split; [apply P3_init|]. split; [intros t; destruct t; reflexivity|]. split; [|split].
     + split; intros t; destruct t; try reflexivity; apply ItB_no_iter; reflexivity.
     + intros Hst. discriminate.
+    + intros x E. discriminate.
 Qed.
 
 (* ------------------------------------------------------------------ observer.join() of an application thread *)
@@ -858,7 +862,7 @@ Qed.
 Theorem no_deadlock s : reachable s -> deadlocked s = false.
 Proof.
   intros Hs.
-  destruct (P5_reachable s Hs) as [[HL [[HR HN] HD]] [_ [_ HM]]].
+  destruct (P5_reachable s Hs) as [[HL [[HR HN] HD]] [_ [_ [HM _]]]].
   pose proof (EmRef_reachable s Hs) as [HRef _].
   pose proof (JInv_reachable s Hs) as HJ.
   pose proof (DA_reachable s Hs) as HA.
